@@ -537,7 +537,7 @@ theorem mem_entries_net {α : Type} (B : Str) (t : TreeSpec α) (ns : NetSpec α
 
 theorem saveLoad_normal_aux (hh : HeaderOk Gen.Registry.confFileHeader)
     (pr : Char → Bool) (c : ClassId) (dflt : Val) (K : Kind) (B : Str) (t : TreeSpec Val) (cache0 : Cache)
-    (hK : K.chanV = true) (h : Storable pr c dflt B t) :
+    (hK : K.chanV = true) (hc : c ≠ .str .normalized) (h : Storable pr c dflt B t) :
     saveLoad pr c dflt K B ⟨t.build, cache0⟩ =
       .up ⟨t.build, (t.entries B).map fun kv => (kv.1, c.show pr kv.2)⟩ := by
   have hshow : ∀ v, (c.cls pr dflt).str v = c.show pr v := fun _ => rfl
@@ -548,6 +548,7 @@ theorem saveLoad_normal_aux (hh : HeaderOk Gen.Registry.confFileHeader)
   have hfile : saveText pr c (t.entries B) =
       closeText (((t.entries B).map fun kv => (⟨none, none, kv.1, c.show pr kv.2⟩ : VSpec)).map VSpec.spec) := by
     unfold saveText closeText
+    simp only [ClassId.serializeAt, if_neg hc]
     have := renderSpecs_plain true ((t.entries B).map fun kv => (kv.1, c.serialize pr kv.2))
     simp only [List.map_map] at this
     simp only [List.map_map]
